@@ -148,6 +148,12 @@ def r_nan_reject(rep, f):
         if n == 0:
             rep.inconc("R-NAN-REJECT", key, "no accepted-step callback reached by the analysis")
             continue
+        imp = []
+        for tag_, sx_, hk_ in variants:
+            imp = imp or rk.imprecise_in_main(sx_, hk_)
+        if worst and imp:
+            rep.inconc("R-NAN-REJECT", key, "the error norm / accept decision is computed by a construct the interpreter cannot follow (%s): NaN propagation not derivable" % imp[0])
+            continue
         if worst:
             missing, tag, r, need, clean = worst
             names = sorted(missing, key=lambda s: int(s[1:]))
